@@ -12,6 +12,7 @@ fn case_json(depth: u8, lon: f64, lat: f64) -> Value {
 
 /// C01 on one (depth, position). Returns a violation, if any.
 pub fn check_c01(depth: u8, lon: f64, lat: f64, xy: (f64, f64), part: &mut Part) -> Option<Viol> {
+  journal("nested::hash", || case_json(depth, lon, lat));
   let r = guarded(move || nested::hash(depth, lon, lat));
   match r {
     Err(msg) => Some(Viol {
